@@ -92,6 +92,21 @@ CLAIMED["C20"] = dict(
          "(1e-9 relative), default cost tables (passed explicitly), head-pump maximum-power formula, tank_capacity, population, entropy.",
     technique="Coq proof (number theory, periodic sums, argmin) + exact-rational differential check of every metric")
 
+CLAIMED["C16"] = dict(
+    text="Proof over a model of run_sim's step/solve/trial skeleton under an arbitrary fault sequence (which solver calls fail, "
+         "backup solver, trial limit, convergence_error): the reported times are always a prefix of the fault-free reported times; a "
+         "failed step always ends the run as RuntimeError (convergence_error) or warning+error_code, never as completed; without faults "
+         "the run completes with every reported time; a strictly increasing step sequence gives a strictly increasing index. Tie decided "
+         "inside coqc: for generated networks the traced fault-free run gives the steps, then runs with faults injected into "
+         "_solver_helper (any call index, primary/backup, lowered trial limit) must end exactly as `outcome` says, with the same index; "
+         "values before the failure equal the fault-free ones; every result table is checked to be well formed (shared strictly "
+         "increasing index on the report grid, one column per element, finite numbers).",
+    ref="DESIGN.md section 5 C16",
+    note="Trusted: Coq kernel (axiom-free); the fault-injection wrapper. Modelled not verified: the nonlinear solver (oracle: its status is "
+         "the fault sequence), termination of Newton itself (bounded by MAXITER in the code), the time-stepping of controls (C04 model). "
+         "Finite values and column sets are direct observations on the returned tables, not theorems.",
+    technique="Coq proof (induction over steps under an arbitrary fault sequence) + exact differential check with injected solver failures")
+
 NOT_YET = {
 }
 
